@@ -82,6 +82,25 @@ NodesOf(L, M, order) ==
           [i \in DOMAIN StepsOfAsset(L, M, order[k]) |-> NodeRec(L, M, order[k], StepsOfAsset(L, M, order[k])[i])]])
 NodeKeys(L, M) == UNION { { <<x, StepsOfAsset(L, M, x)[i].name>> : i \in DOMAIN StepsOfAsset(L, M, x) } : x \in Assets(M) }
 
+\* operator types occurring in an expression (feature flags for coverage accounting and classification)
+RECURSIVE OpsOf(_)
+OpsOf(e) == CASE e.type \in {"collect", "union", "intersection", "difference"} -> {e.type} \cup OpsOf(e.lhs) \cup OpsOf(e.rhs)
+              [] e.type \in {"transitive", "subType"} -> {e.type} \cup OpsOf(e.stepExpression)
+              [] OTHER -> {e.type}
+StepOps(s) == UNION { OpsOf(s.reaches.exprs[k]) : k \in DOMAIN s.reaches.exprs } \cup
+              UNION { OpsOf(s.requires.exprs[k]) : k \in DOMAIN s.requires.exprs }
+ModelFeatures(M) == (IF \E a \in M.links : a.l \cap a.r # {} THEN {"self_link"} ELSE {})
+               \cup (IF \E a \in M.links : Cardinality(a.l) > 1 \/ Cardinality(a.r) > 1 THEN {"multi_member"} ELSE {})
+               \cup (IF \E a, b \in M.links : a # b /\ a.l \cap b.r # {} /\ a.r \cap b.l # {} THEN {"two_cycle"} ELSE {})
+\* what a generated attack graph must look like (C01, C02)
+GraphExp(L, M, order) ==
+  [ nodes |-> [k \in DOMAIN NodesOf(L, M, order) |->
+                 LET n == NodesOf(L, M, order)[k] IN
+                 [asset |-> n.asset, step |-> n.step, kind |-> n.kind, ttc |-> n.ttc, tags |-> n.tags,
+                  mitre |-> n.mitre, dstat |-> n.dstat, estat |-> n.estat,
+                  ops |-> StepOps(FoldedStep(L, M.type[n.asset], n.step))]],
+    lo |-> EdgesLo(L, M), hi |-> EdgesHi(L, M), feats |-> ModelFeatures(M) ]
+
 \* spec-level sanity (checked by TLC over every explored pair)
 EdgesWellFormed(L, M) ==
   /\ EdgesLo(L, M) \subseteq EdgesHi(L, M)
